@@ -59,27 +59,41 @@ theorem zext8_bne_lit (x : BitVec 8) (k : Nat) (hk : k < 4294967296) :
 
 
 
+/-- an OR of words is zero iff both are -/
+theorem or_eq_zero_iff {w : Nat} (x y : BitVec w) : (x ||| y) = 0#w ↔ x = 0#w ∧ y = 0#w := by
+  constructor
+  · intro h
+    constructor <;> apply BitVec.eq_of_getLsbD_eq <;> intro i hi <;>
+      have := congrArg (fun z => z.getLsbD i) h <;>
+      simp only [BitVec.getLsbD_or, BitVec.getLsbD_zero, Bool.or_eq_false_iff] at this <;> simp [this]
+  · rintro ⟨rfl, rfl⟩; simp
+
+@[simp] theorem or_beq_zero {w : Nat} (x y : BitVec w) : ((x ||| y) == 0#w) = (x == 0#w && y == 0#w) := by
+  rw [Bool.eq_iff_iff]; simp [or_eq_zero_iff]
+
 /-- `lrtr_get_bits` as translated from the C text is the literal model `getBits32`; it is undefined (assertion) exactly
-    when more than 32 bits are requested -/
+    when more than 32 bits are requested.  The proof decides the model's three conditions and lets `simp` evaluate both
+    sides; it does not depend on how the C text computes the mask (mutable variable, ternary, order of the `&`). -/
 theorem lrtr_get_bits_eq (v : BitVec 32) (f n : BitVec 8) :
     C.lrtr_get_bits v f n = if n.toNat ≤ 32 then some (getBits32 v f.toNat n.toNat) else none := by
   unfold C.lrtr_get_bits getBits32
-  simp (disch := decide) only [slt_zext8_lit, slt_lit_zext8, sle_lit_zext8, zext8_beq_lit, zext8_bne_lit, zext8_toNat]
+  simp (disch := decide) only [slt_zext8_lit, slt_lit_zext8, sle_lit_zext8, sle_zext8_lit, zext8_beq_lit, zext8_bne_lit, zext8_toNat]
   have hf := f.isLt
   have hn := n.isLt
+  have allOnes : BitVec.allOnes 32 = 4294967295#32 := by decide
   by_cases h1 : n.toNat ≤ 32
   · have h1' : n.toNat < 33 := by omega
-    simp only [h1, h1', decide_true, if_true, Nat.zero_le, Bool.true_and, Bool.or_eq_true, beq_iff_eq, decide_eq_true_eq]
-    by_cases h2 : n.toNat = 0 ∨ 31 < f.toNat
-    · have : n.toNat = 0 ∨ f.toNat > 31 := h2
-      simp only [h2, if_true]
-    · have : ¬ (n.toNat = 0 ∨ f.toNat > 31) := h2
-      have hf2 : f.toNat < 32 := by omega
-      simp only [h2, if_false, hf2, if_true]
-      by_cases h3 : n.toNat = 32
-      · simp [h3]
-      · have : n.toNat < 32 := by omega
-        simp [h3, this]
+    by_cases h0 : n.toNat = 0
+    · simp [h1, h1', h0]
+    · by_cases hf31 : 31 < f.toNat
+      · have : f.toNat > 31 := hf31
+        simp [h1, h1', h0, hf31, this]
+      · have hf2 : f.toNat < 32 := by omega
+        have hf3 : ¬ f.toNat > 31 := by omega
+        by_cases h3 : n.toNat = 32
+        · simp [h1, h1', h0, hf31, hf2, hf3, h3, allOnes, BitVec.and_comm]
+        · have hn2 : n.toNat < 32 := by omega
+          simp [h1, h1', h0, hf31, hf2, hf3, h3, hn2, allOnes, BitVec.and_comm]
   · have h1' : ¬ n.toNat < 33 := by omega
     simp [h1, h1']
 
